@@ -45,6 +45,12 @@ def handle (cmd : String) (args : List String) : Option String :=
   match cmd, args with
   | "rq", [srv, route, hx] =>
     some (if (srv == "i" || srv == "q") && routeIdOk route && hx ≠ "" && (hexBytes? hx).isSome then "ok" else "bad-op")
+  | "sq", srv :: route :: hx :: p :: ps =>
+    let prepOk (t : String) : Bool :=
+      match t.splitOn ":" with
+      | [sv, h] => (sv == "i" || sv == "q") && h ≠ "" && (hexBytes? h).isSome
+      | _ => false
+    some (if (srv == "i" || srv == "q") && routeIdOk route && hx ≠ "" && (hexBytes? hx).isSome && (p :: ps).all prepOk then "ok" else "bad-op")
   | "ws", [route, hx] =>
     some (if routeIdOk route && hx ≠ "" && (hexBytes? hx).isSome then "ok" else "bad-op")
   | "om", [] => some (om [])
@@ -52,6 +58,7 @@ def handle (cmd : String) (args : List String) : Option String :=
   | "ot", [] => some (ot [])
   | "ot", [hx] => some ((hexBytes? hx).elim "bad-op" ot)
   | "rq", _ => some "bad-op"
+  | "sq", _ => some "bad-op"
   | "ws", _ => some "bad-op"
   | "om", _ => some "bad-op"
   | "ot", _ => some "bad-op"
